@@ -31,9 +31,9 @@ type Op struct {
 }
 
 type Expect struct {
-	Gates [][2]interface{}  `json:"gates"` // per step: [proc, gate reached]
-	Hist  []map[string]any  `json:"hist"`
-	Final []int             `json:"final"`
+	Gates [][2]interface{} `json:"gates"` // per step: [proc, gate reached]
+	Hist  []map[string]any `json:"hist"`
+	Final []int            `json:"final"`
 }
 
 type Run struct {
@@ -82,19 +82,19 @@ func yieldHook(point string, key interface{}, obj interface{}) {
 }
 
 type execResult struct {
-	Id           string   `json:"id"`
-	Mode         string   `json:"mode"`
-	Sched        []int    `json:"sched"`
-	Gates        []string `json:"gates"`
-	Steps        int      `json:"steps"`
-	GateMismatch int      `json:"gate_mismatch"`
-	FirstGateMis string   `json:"first_gate_mismatch,omitempty"`
-	OutcomeMis   string   `json:"outcome_mismatch,omitempty"`
-	Stall        string   `json:"stall,omitempty"`
-	Deadlock     bool     `json:"deadlock,omitempty"`
+	Id           string      `json:"id"`
+	Mode         string      `json:"mode"`
+	Sched        []int       `json:"sched"`
+	Gates        []string    `json:"gates"`
+	Steps        int         `json:"steps"`
+	GateMismatch int         `json:"gate_mismatch"`
+	FirstGateMis string      `json:"first_gate_mismatch,omitempty"`
+	OutcomeMis   string      `json:"outcome_mismatch,omitempty"`
+	Stall        string      `json:"stall,omitempty"`
+	Deadlock     bool        `json:"deadlock,omitempty"`
 	Computes     map[int]int `json:"computes"`
-	Prog         [][]Op   `json:"prog"`
-	Options      []int    `json:"-"`
+	Prog         [][]Op      `json:"prog"`
+	Options      []int       `json:"-"`
 }
 
 const stallTimeout = 3 * time.Second
@@ -131,14 +131,14 @@ func execute(run *Run, choose func(step int, rel []int) int, events *[]Event) *e
 				case "los":
 					v := m.LoadOrStore(op.Key, func() interface{} {
 						emit(Event{"ev": "compute", "g": w.p + 1, "key": op.Key})
-						return arg
+						return real(arg)
 					})
 					emit(retEvent(w.p+1, v, true))
 				case "load":
 					v, ok := m.Load(op.Key)
 					emit(retEvent(w.p+1, v, ok))
 				case "store":
-					m.Store(op.Key, arg)
+					m.Store(op.Key, real(arg))
 					emit(Event{"ev": "ret", "g": w.p + 1, "rv": arg, "ok": true})
 				}
 			}
@@ -246,6 +246,17 @@ func execute(run *Run, choose func(step int, rel []int) int, events *[]Event) *e
 	return res
 }
 
+// nilArg is the one abstract value that is concretised as a nil interface (a map must hold and publish a nil value like any
+// other: a compute function may return nil, Store may be given nil)
+const nilArg = 11
+
+func real(arg int) interface{} {
+	if arg == nilArg {
+		return nil
+	}
+	return arg
+}
+
 func retEvent(g int, v interface{}, ok bool) Event {
 	rv := 0
 	switch x := v.(type) {
@@ -253,6 +264,9 @@ func retEvent(g int, v interface{}, ok bool) Event {
 		rv = x
 	case nil:
 		rv = 0
+		if ok {
+			rv = nilArg // present with the nil value
+		}
 	default:
 		rv = -1 // anything that is not a supplied value: a placeholder leaked out
 	}
@@ -368,14 +382,14 @@ func freeRun(run *Run, rng *rand.Rand, events *[]Event) {
 					v := m.LoadOrStore(op.Key, func() interface{} {
 						emit(Event{"ev": "compute", "g": p + 1, "key": op.Key})
 						runtime.Gosched()
-						return arg
+						return real(arg)
 					})
 					emit(retEvent(p+1, v, true))
 				case "load":
 					v, ok := m.Load(op.Key)
 					emit(retEvent(p+1, v, ok))
 				case "store":
-					m.Store(op.Key, arg)
+					m.Store(op.Key, real(arg))
 					emit(Event{"ev": "ret", "g": p + 1, "rv": arg, "ok": true})
 				}
 			}
